@@ -430,6 +430,14 @@ def check_template(ctx, P, MV):
             bad = bad or ("a non-blocking connect waits", waits[0], None, "connect waits on non-blocking")
         if fn.args(waits[0])[1].cv != MV["FIBER_POLL_OUT"]:
             bad = bad or ("connect waits for IN", waits[0], None, "connect direction")
+        # EAGAIN: the kernel's answer to a non-blocking AF_UNIX connect whose listener has a full backlog (a blocking connect would wait)
+        a, rv = shim_atoms(P, fn, real, "sockfd", MV, -1, MV["EAGAIN"], 0, 1, 1)
+        e = forced_edges(fn, a)
+        susp = nodeset(waits + fn.calls(("fiber_sleep", "fiber_yield", "fiber_manager_yield")))
+        for rc_ in real:
+            if fn.find_path(rc_, "exit", barrier=lambda n: susp(n) or (n is not rc_ and any(n is x for x in real)), edge_ok=e) is not None:
+                bad = bad or ("the real connect failing with EAGAIN on a blocking descriptor (full backlog of an AF_UNIX listener) is returned to the caller "
+                              "instead of suspending the fiber and retrying", rc_, None, "connect EAGAIN passed on")
     if bad:
         o.fail(bad[0], site=bad[1], witness=bad[2], construct=bad[3])
     else:
@@ -813,7 +821,7 @@ def check_errno_fresh(ctx, P):
             for c in sw:
                 if fn.find_path(c, lambda x, r=r: x is r) is None:
                     continue
-                if any(e is not r and fn.find_path(e, lambda x, c=c: x is c) is not None for e in reads) or fn.find_path(r, lambda x, c=c: x is c) is not None:
+                if any(e is not r and not e.d.get("inl_noinline") and fn.find_path(e, lambda x, c=c: x is c) is not None for e in reads) or fn.find_path(r, lambda x, c=c: x is c) is not None:
                     n += 1
                     bad = bad or ("%s: `errno` at %s can be read through the address computed before `%s` switched the fiber to another kernel thread" % (fn.name, r.loc, c.text[:40]), r)
     o.check(bad is None, "no errno read straddles a switch", bad[0] if bad else None, site=bad[1] if bad else None, construct="stale errno location")
